@@ -10,6 +10,9 @@ func propC01(c *Ctx, r *Report) {
 	// goroutine scheduling: no memory written by the sync goroutine is shared with request handlers
 	r.rule("C01/scheduling", 2, "no unsynchronised location is shared between block processing and API handler goroutines")
 	ruleSharedConflicts(c, newSharedAnalysis(c), r, "C01/scheduling")
+	// what was fetched decides what is applied: a failed entry download is not mistaken for an empty entry
+	r.rule("C01/fetch-errors", 2, "errors of the parallel entry fetch reach SyncBlock")
+	runErrflow(c, computeEffects(c), r, reachOfSelf(c, "node.multiFetch"), "C01/fetch-errors", false)
 	// process-start dependence of the averaging window (shared with C09)
 	r.rule("C01/window-size", 1, "the incrementally maintained averaging window has the size of a reloaded one")
 	windowSize(c, r, "C01/window-size")
